@@ -22,17 +22,25 @@ VALUE = re.compile(r'register_value\(\s*"([^"]+)",\s*SteelVal::(FuncV|BuiltIn|Mu
 
 
 def registered(repo_src):
-    """-> {mir function name suffix: (kind, script name, file)}"""
+    """-> {mir function name suffix: (kind, script name, file)}.  A function that carries the attribute
+    but whose generated `<FN>_DEFINITION` constant is mentioned nowhere is not registered with any
+    module (a script cannot call it) and is left out."""
     out = {}
+    texts = {}
     for root, _, files in os.walk(repo_src):
         for f in files:
-            if not f.endswith(".rs"):
-                continue
-            txt = open(os.path.join(root, f), errors="replace").read()
+            if f.endswith(".rs"):
+                texts[os.path.join(root, f)] = open(os.path.join(root, f), errors="replace").read()
+    used = set(re.findall(r"\b([A-Z][A-Z0-9_]*)_DEFINITION\b", "\n".join(texts.values())))
+    for path, txt in texts.items():
+        root, f = os.path.split(path)
+        if True:
             for m in ATTR.finditer(txt):
                 kind, attrs, fn = m.group(1), m.group(2), m.group(3)
                 nm = re.search(r'name\s*=\s*"([^"]+)"', attrs)
                 if not nm:
+                    continue
+                if fn.upper() not in used:
                     continue
                 key = ("steel_" + fn) if kind == "function" else fn
                 out.setdefault(key, (kind, nm.group(1), os.path.relpath(os.path.join(root, f), repo_src)))
